@@ -36,7 +36,7 @@ type Val struct {
 	Dyn *Val
 
 	// Origin: heap array the value was loaded from (channel classes, function-valued fields)
-	Origin string
+	Origin    string
 	OriginRef string
 
 	// statically known integer bounds (nil = only the type's range is known)
